@@ -30,6 +30,8 @@ func init() {
 }
 
 func runC28(c *core.Ctx) {
+	c.Rule("LOOPCLOSURE", "no function literal that outlives its iteration uses a shared loop variable")
+	checkLoopClosures(c, "LOOPCLOSURE", []string{"cmd", "plugins", "datasources", "execution", "logical", "physical", "optimizer", "outputs", "functions", "aggregates", "table_valued_functions", "config", "helpers", "parser", "octosql", "telemetry"})
 	c.Rule("LAYOUT", "writer and readers of the plugin directory layout agree")
 	c.Rule("DESC", "version lists are sorted descending")
 	c.Rule("FIRST", "resolution takes the first qualifying version in that order")
